@@ -355,10 +355,26 @@ def check_e2e(sel, xs, ys, p0, ov_kind, rec=None):
         expected = [ev for ev in cand if (key not in ev or th(ev[key]))]
     else:
         expected = [ev for ev in cand if satisfies(sel, ev, stats)]
+    # every other case: an unconditional probe on the same focus variable is activated first and
+    # deactivated first (non-LIFO), so that the conditional probe is alone when the calls happen
+    fifo = (len(xs) + len(ys) + p0) % 2 == 1
     try:
-        with probing(text, env=env).values() as got:
-            a1 = FL.lo(list(xs), list(ys))
-            a2 = FL.li(p0, list(ys))
+        if fifo:
+            comp = probing(f"{M.focus_path(sel)[-1].fn} > {fcap.name}", env=env)
+            comp.__enter__()
+            main = probing(text, env=env)
+            got = main.accum()
+            main.__enter__()
+            try:
+                comp.__exit__(None, None, None)
+                a1 = FL.lo(list(xs), list(ys))
+                a2 = FL.li(p0, list(ys))
+            finally:
+                main.__exit__(None, None, None)
+        else:
+            with probing(text, env=env).values() as got:
+                a1 = FL.lo(list(xs), list(ys))
+                a2 = FL.li(p0, list(ys))
     except BaseException as e:
         _cleanup()
         raise PropertyViolation("run", f"probing({text!r}) raised {HY.describe_exc(e)}",
@@ -370,7 +386,7 @@ def check_e2e(sel, xs, ys, p0, ov_kind, rec=None):
     if list(got) != expected:
         raise PropertyViolation(
             "filter",
-            f"probing({text!r}) on xs={xs} ys={ys} p0={p0}: expected {expected!r}, got {list(got)!r}",
+            f"probing({text!r}) on xs={xs} ys={ys} p0={p0}{' (after an unconditional probe on the focus was activated first and deactivated first)' if fifo else ''}: expected {expected!r}, got {list(got)!r}",
         )
 
     # ---- override under the same condition
